@@ -16,11 +16,16 @@ package w
 //        task R: {op:"reply", k:query, s:ack|resp, t:from} {op:"stall"} {op:"unstall"} {op:"sleep", d:ms}
 
 import (
+	"bytes"
 	"fmt"
+	"io"
+	"net"
 	"strings"
+	"sync"
 	"testing/synctest"
 	"time"
 
+	"github.com/hashicorp/go-msgpack/v2/codec"
 	"verifsim/vsched"
 )
 
@@ -88,12 +93,115 @@ type c25bStream struct {
 	got     []string
 }
 
-func (cl *ipcClient) sendNoWait(command string, seq uint64, body any) {
-	vs := []any{map[string]any{"Command": command, "Seq": seq}}
-	if body != nil {
-		vs = append(vs, body)
+// vconn is the server's end of a simulated RPC connection whose blocking is owned by
+// the yield scheduler: a Read waits (cooperatively) for request bytes, a Write is taken at
+// once unless the client has stopped reading. No goroutine outside the scheduler's control
+// takes part, so a run is a pure function of the case.
+type vconn struct {
+	mu      sync.Mutex
+	in      bytes.Buffer // client -> server
+	out     bytes.Buffer // server -> client
+	stalled bool
+	closed  bool
+	remote  net.Addr
+}
+
+func (c *vconn) Read(p []byte) (int, error) {
+	vsched.Block("conn-read", func() bool {
+		c.mu.Lock()
+		defer c.mu.Unlock()
+		return c.in.Len() > 0 || c.closed
+	})
+	c.mu.Lock()
+	defer c.mu.Unlock()
+	if c.in.Len() == 0 {
+		return 0, io.EOF
 	}
-	cl.sendq <- vs
+	return c.in.Read(p)
+}
+
+func (c *vconn) Write(p []byte) (int, error) {
+	vsched.Block("conn-write", func() bool {
+		c.mu.Lock()
+		defer c.mu.Unlock()
+		return !c.stalled || c.closed
+	})
+	c.mu.Lock()
+	defer c.mu.Unlock()
+	if c.closed {
+		return 0, io.ErrClosedPipe
+	}
+	return c.out.Write(p)
+}
+
+func (c *vconn) Close() error {
+	c.mu.Lock()
+	c.closed = true
+	c.mu.Unlock()
+	return nil
+}
+func (c *vconn) LocalAddr() net.Addr                { return &net.TCPAddr{IP: net.ParseIP("127.0.0.1"), Port: 7373} }
+func (c *vconn) RemoteAddr() net.Addr               { return c.remote }
+func (c *vconn) SetDeadline(t time.Time) error      { return nil }
+func (c *vconn) SetReadDeadline(t time.Time) error  { return nil }
+func (c *vconn) SetWriteDeadline(t time.Time) error { return nil }
+
+// vclient is the simulated client: it only moves bytes in and out of the vconn.
+type vclient struct{ c *vconn }
+
+func vconnect(as *agentSim) *vclient {
+	as.nconn++
+	vc := &vconn{remote: &net.TCPAddr{IP: net.ParseIP("127.0.0.1"), Port: 40000 + as.nconn}}
+	as.lis.ch <- vc
+	return &vclient{c: vc}
+}
+
+func (cl *vclient) send(command string, seq uint64, body any) {
+	var buf bytes.Buffer
+	enc := codec.NewEncoder(&buf, ipcHandle())
+	enc.Encode(map[string]any{"Command": command, "Seq": seq})
+	if body != nil {
+		enc.Encode(body)
+	}
+	cl.c.mu.Lock()
+	cl.c.in.Write(buf.Bytes())
+	cl.c.mu.Unlock()
+}
+
+func (cl *vclient) setStalled(v bool) {
+	cl.c.mu.Lock()
+	cl.c.stalled = v
+	cl.c.mu.Unlock()
+}
+
+func (cl *vclient) hang() { cl.c.Close() }
+
+// records decodes everything the server has sent so far.
+func (cl *vclient) records() []ipcRecord {
+	cl.c.mu.Lock()
+	data := append([]byte(nil), cl.c.out.Bytes()...)
+	cl.c.mu.Unlock()
+	dec := codec.NewDecoder(bytes.NewReader(data), ipcHandle())
+	var out []ipcRecord
+	for {
+		var v any
+		if err := dec.Decode(&v); err != nil {
+			return out
+		}
+		rec := ipcRecord{raw: v}
+		if m, ok := v.(map[string]any); ok {
+			_, hasSeq := m["Seq"]
+			_, hasErr := m["Error"]
+			if hasSeq && hasErr && len(m) == 2 {
+				rec.header = true
+				rec.seq = toU64(m["Seq"])
+				rec.err, _ = m["Error"].(string)
+			} else {
+				rec.body = m
+			}
+		}
+		out = append(out, rec)
+	}
 }
 
 func execC25B(r *Run) {
@@ -136,7 +244,7 @@ func execC25B(r *Run) {
 		return
 	}
 	drainAll(c, 0)
-	clA, clB := as.connect(), as.connect()
+	clA, clB := vconnect(as), vconnect(as)
 	settle()
 	seqA, seqB := uint64(1), uint64(1)
 	reqA, reqB := map[uint64]string{1: "handshake"}, map[uint64]string{1: "handshake"}
@@ -206,7 +314,7 @@ func execC25B(r *Run) {
 				reqB[seqB] = "stream"
 				st := &c25bStream{conn: "B", seq: seqB, filter: s.S, racing: true}
 				streams, subsB = append(streams, st), append(subsB, st)
-				clB.sendNoWait("stream", seqB, map[string]any{"Type": s.S})
+				clB.send("stream", seqB, map[string]any{"Type": s.S})
 				r.Fault("subscribe-during-fan-out")
 			case "unsub":
 				if hung || len(subsB) == 0 {
@@ -216,14 +324,14 @@ func execC25B(r *Run) {
 				seqB++
 				reqB[seqB] = "stop"
 				st.stopped = true
-				clB.sendNoWait("stop", seqB, map[string]any{"Stop": st.seq})
+				clB.send("stop", seqB, map[string]any{"Stop": st.seq})
 				r.Fault("stop-during-fan-out")
 			case "unsubA":
 				st := pre[s.K%len(pre)]
 				seqA++
 				reqA[seqA] = "stop"
 				st.stopped = true
-				clA.sendNoWait("stop", seqA, map[string]any{"Stop": st.seq})
+				clA.send("stop", seqA, map[string]any{"Stop": st.seq})
 				r.Fault("stop-during-fan-out")
 			case "hang":
 				if hung {
@@ -233,7 +341,7 @@ func execC25B(r *Run) {
 				for _, st := range subsB {
 					st.stopped = true
 				}
-				clB.conn.Close()
+				clB.hang()
 				r.Fault("hang-up-during-fan-out")
 			case "members":
 				if hung {
@@ -241,7 +349,7 @@ func execC25B(r *Run) {
 				}
 				seqB++
 				reqB[seqB] = "members"
-				clB.sendNoWait("members", seqB, nil)
+				clB.send("members", seqB, nil)
 			}
 		}
 	}))
@@ -266,13 +374,10 @@ func execC25B(r *Run) {
 					nd.Del.NotifyMsg(wEnc(mtQueryResponse, m))
 					r.Fault("reply-around-deadline")
 				case "stall":
-					clA.stall()
+					clA.setStalled(true)
 					r.Fault("slow-client-stall")
 				case "unstall":
-					if clA.stalled {
-						clA.stalled = false
-						close(clA.resume)
-					}
+					clA.setStalled(false)
 				case "sleep":
 					time.Sleep(time.Duration(s.D) * time.Millisecond)
 				}
@@ -283,10 +388,7 @@ func execC25B(r *Run) {
 		r.Fail("scheduler", "harness-sched", "race: %v", err)
 		return
 	}
-	if clA.stalled {
-		clA.stalled = false
-		close(clA.resume)
-	}
+	clA.setStalled(false)
 	for i := 0; i < 4; i++ { // every query deadline passes, every stream drains
 		time.Sleep(time.Second)
 		settle()
@@ -294,12 +396,13 @@ func execC25B(r *Run) {
 	r.NonTrivial = true
 
 	// ---- what each connection received
-	parse := func(name string, cl *ipcClient, req map[uint64]string) {
+	parse := func(name string, cl *vclient, req map[uint64]string) {
 		var pending *ipcRecord
-		for i := range cl.records {
-			rec := cl.records[i]
+		recs := cl.records()
+		for i := range recs {
+			rec := recs[i]
 			if rec.header {
-				pending = &cl.records[i]
+				pending = &recs[i]
 				if req[rec.seq] == "" {
 					r.Fail("reply-with-unknown-seq", "C25 unknown-seq", "connection %s: the agent sent a header with Seq=%d (Error=%q) which is neither a request of this connection nor one of its streams", name, rec.seq, rec.err)
 				}
